@@ -151,7 +151,13 @@ CHECKS["C18"] = (
     "ephemeral subjects differ per grant; the type comes from the client's registration; a hexdigest cannot contain a user id that has a "
     "non-hex character (C18_opaque_partial). Consistency of the four release points (ID Token, userinfo, JWT access token, introspection) "
     "is decided on the real endpoints: every grant of generated login sequences is read at all four and compared; the observed sub must "
-    "equal the model's (SHA-256 via hashlib tables). A static source tie checks that each release point still reads grant.sub.",
+    "equal the model's (SHA-256 via hashlib tables). A static source tie checks that each release point still reads grant.sub. "
+    "Configured subject minters (session_params.sub_func): the model carries the configured dict (load_sub_func = the loop of "
+    "do_sub_func, fill_default = SessionManager's completion); every key is served by the minter its own entry names, else by the built-in "
+    "one (C18_table_serves_each_type_with_its_own_minter, C18_configured_minter_serves_its_type, C18_unconfigured_type_gets_builtin), "
+    "whatever the order of the dict (C18_configuration_order_irrelevant), and the type rules hold for sector-blind / sector-hashing "
+    "minters under their keys; providers with one, two or three configured types in all 15 orders (PublicID / PairWiseID classes, library "
+    "and plain functions, own salts) run the same login sequences, and the provider's sub_func table is probed key by key.",
     LEVEL_NOTE_COMMON + "SHA-256 idealised as injective; urlparse().hostname is an environment function; uuid4 freshness assumed. Partial: "
     "consistency is oracle-decided, opacity is proved for user ids with a non-hex character.",
     "DESIGN.md §6 C18")
